@@ -178,7 +178,8 @@ func (b *BundleAdd) Len() (n uint16) {
 	length += b.Message.Len()
 	if b.Properties != nil {
 		for _, p := range b.Properties {
-			length += p.Len()
+			// each property is padded to a multiple of 8 bytes
+			length += (p.Len() + 7) / 8 * 8
 		}
 	}
 	return length
@@ -206,7 +207,7 @@ func (b *BundleAdd) MarshalBinary() (data []byte, err error) {
 				return data, err
 			}
 			copy(data[n:], propertyData)
-			n += len(propertyData)
+			n += (len(propertyData) + 7) / 8 * 8
 		}
 	}
 
@@ -236,7 +237,7 @@ func (b *BundleAdd) UnmarshalBinary(data []byte) error {
 				return err
 			}
 			b.Properties = append(b.Properties, property)
-			n += int(property.Len())
+			n += (int(property.Len()) + 7) / 8 * 8
 		}
 	}
 	return err
